@@ -1531,6 +1531,19 @@ fn main() {
             }
             rep.emit();
         }
+        Some("tc") => {
+            // `c07 tc <dir | file>`: compile a script tree from disk (pkg.roto, name.roto, name/mod.roto)
+            let rt = Runtime::new();
+            let r = catch_unwind(AssertUnwindSafe(|| match FileTree::read(&args[2]) {
+                Ok(tree) => tree.compile(&rt).map(|_| ()),
+                Err(e) => Err(e),
+            }));
+            match r {
+                Ok(Ok(())) => println!("compiled"),
+                Ok(Err(rep)) => println!("{}: {}", report_stage(&rep), first_line(&rep)),
+                Err(e) => println!("panic: {}", panic_text(e)),
+            }
+        }
         Some("show") => {
             let seed: u64 = args[2].parse().unwrap();
             let index: u64 = args[3].parse().unwrap();
